@@ -87,10 +87,10 @@ func genStopCase(r *rand.Rand, key string) (Case, StopSpec) {
 	c.PSelect, c.PTxn, c.PNoise = 0.05, 0.12, 0.06
 	c.MaxTxn = 1 + r.Intn(3)
 	c.Frags = 1
-	c.ExecDelay = []time.Duration{0, 0, 200 * time.Microsecond, time.Millisecond}[r.Intn(4)]
+	c.ExecDelay = []time.Duration{0, 0, 0, 200 * time.Microsecond, time.Millisecond}[r.Intn(5)]
 	c.Base = int64(1000 + r.Intn(1000000))
-	sp := StopSpec{Frags: []int{1, 1, 2, 5}[r.Intn(4)]}
-	if r.Intn(3) == 0 {
+	sp := StopSpec{Frags: []int{1, 1, 1, 2, 5}[r.Intn(5)]}
+	if r.Intn(3) != 0 {
 		sp.AtByte = -1 // resolved against the stream length
 	} else {
 		sp.AtRequest = -1
